@@ -60,6 +60,10 @@ def cases(tier, seed):
         cd = gen.random_circuit(rng, n_in=rng.randint(1, 3), n_gates=rng.randint(2, 7), max_fanin=3, p_const=0.2,
                                 cyclic=rng.randint(1, 3), p_out=0.4, allow_input_output=rng.random() < 0.2,
                                 names=(gen.NASTY_NAMES if rng.random() < 0.15 else None))
+        if rng.random() < 0.25:
+            cd = gen.adversarial_rename(cd, rng)  # names the transform itself would derive from other nodes
+        if rng.random() < 0.3:
+            cd = gen.shuffle_nodes(cd, rng)  # node insertion order decides iteration order inside the library
         yield {"c": cd}
 
 
